@@ -11,6 +11,7 @@ import (
 	"verifharness/drv/c06"
 	"verifharness/drv/c09"
 	"verifharness/drv/c10"
+	"verifharness/drv/c12"
 	"verifharness/drv/c11"
 	"verifharness/drv/c14"
 	"verifharness/drv/c15"
@@ -27,6 +28,7 @@ var cmds = map[string]func([]string) error{
 	"c06": c06.Main,
 	"c09": c09.Main,
 	"c10": c10.Main,
+	"c12": c12.Main,
 	"c11": c11.Main,
 	"c14": c14.Main,
 	"c15": c15.Main,
